@@ -429,14 +429,23 @@ def _generate_selector_section_sparse(
     runtime_ctx.append_data_section(IRLabel("selector_buckets", is_symbol=True))
 
     # Build jump targets list and add bucket header labels
+    # NOTE: empty buckets must not point at the fallback block directly.
+    # the jump table in the data section refers to blocks by label, so
+    # every djmp target needs to be a block whose only predecessor is the
+    # djmp (if the fallback block, which has other predecessors, were a
+    # djmp target, cfg normalization would split the djmp->fallback edge
+    # but the data section would still point at the unsplit block).
+    empty_bucket_label = IRLabel("selector_bucket_empty", is_symbol=True)
+    has_empty_bucket = False
     jump_targets = []
     for i in range(n_buckets):
         if i in buckets:
             bucket_label = IRLabel(f"selector_bucket_{i}", is_symbol=True)
             jump_targets.append(bucket_label)
         else:
-            # Empty bucket -> fallback
-            jump_targets.append(fallback_bb.label)
+            # Empty bucket -> fallback (via a dedicated block)
+            has_empty_bucket = True
+            jump_targets.append(empty_bucket_label)
         runtime_ctx.append_data_item(jump_targets[-1])
 
     # Load bucket location from data header
@@ -460,6 +469,14 @@ def _generate_selector_section_sparse(
 
     # Dynamic jump to bucket (must list all possible targets)
     builder.djmp(jumpdest, *jump_targets)
+
+    if has_empty_bucket:
+        empty_bucket_bb = builder.create_block("bucket_empty")
+        # Override the label to match the data section reference
+        empty_bucket_bb.label = empty_bucket_label
+        builder.append_block(empty_bucket_bb)
+        builder.set_block(empty_bucket_bb)
+        builder.jmp(fallback_bb.label)
 
     # Generate bucket blocks
     for bucket_id_val, bucket_method_ids in buckets.items():
